@@ -1,6 +1,7 @@
 package node
 
 import (
+	"fmt"
 	"os"
 	"path/filepath"
 )
@@ -35,6 +36,11 @@ func (c *Chain) CheckReplicas(crashSeed int64, env []string) (reports []ReplicaR
 	check("fresh_instance", d, p, halt)
 	d, p, halt = ReplayStream(s, crashSeed|1)
 	check("crash_restart", d, p, halt)
+	nc, e := c.NodeConfigReplica(crashSeed)
+	if e != nil {
+		return reports, len(od), e
+	}
+	reports = append(reports, nc...)
 	if env != nil {
 		d, p, halt, e := SubprocessReplica(s, env, "/")
 		if e != nil {
@@ -97,4 +103,31 @@ func (c *Chain) CheckLeftoverTemp(env []string) (reports []ReplicaReport, corrup
 		reports = append(reports, ReplicaReport{"subprocess_leftover_tmp", dv.Class, dv.Detail})
 	}
 	return reports, corrupted, nil
+}
+
+// NodeConfigReplica re-executes the recorded block stream the way another operator's node would: in a
+// sub-process with one of the node-local configurations (chosen by sel; passed through the environment).
+// Class names of real divergences are prefixed with the configuration's name.
+func (c *Chain) NodeConfigReplica(sel int64) (reports []ReplicaReport, err error) {
+	if c.Halted != "" || c.InBlock {
+		return nil, nil
+	}
+	i := 1 + int(uint64(sel)%uint64(len(NodeConfigs)-1))
+	kind := "node_config:" + NodeConfigs[i]
+	od, op := c.Digests()
+	d, p, halt, e := SubprocessReplica(c.Stream(), []string{fmt.Sprintf("TSIM_NODE_CONFIG=%d", i)}, "/")
+	if e != nil {
+		return nil, e
+	}
+	if halt != "" {
+		return []ReplicaReport{{kind, "halt", halt}}, nil
+	}
+	for _, dv := range CompareDigestsAll(od, d, op, p) {
+		cls := dv.Class
+		if cls != "event_attribute_order" && cls != "pre_ante_failed_tx_gas" {
+			cls = kind + ":" + cls // what differs from the original is the node's configuration: name it
+		}
+		reports = append(reports, ReplicaReport{kind, cls, dv.Detail})
+	}
+	return reports, nil
 }
